@@ -32,3 +32,4 @@ def run(ctx):
     R.r05_7_defaults(ctx, 'R14.8')
     H.r14_6_get_attribute_guarded(ctx)
     H.r14_9_get_value_text(ctx)
+    H.r14_11_built_nodes(ctx)
